@@ -260,6 +260,9 @@ func runSession(t *tlog, o sessionOpts, rng *rand.Rand) (stats map[string]int, e
 	gate, entered := make(chan struct{}), make(chan struct{})
 	var enteredOnce sync.Once
 	gateK := 0
+	if o.end == "backlog" {
+		gateK = 3 // held for 30 ms (below) while the rest of the script - more than the queue holds - arrives
+	}
 	if o.end == "reconnect" && o.tracking {
 		for k := 3; k+1 < len(ls); k++ {
 			if ls[k+1].witness != nil && !ls[k].ipanic && !ls[k+1].ipanic {
@@ -332,9 +335,13 @@ func runSession(t *tlog, o sessionOpts, rng *rand.Rand) (stats map[string]int, e
 			t.add(event{Ev: "enter", Kind: kind, H: h, K: k, Wk: wk, Wnext: kind != "bg" && !gp && next(k)})
 			if gateK != 0 && k == gateK && kind == "fg" && h == "f1" {
 				enteredOnce.Do(func() { close(entered) })
+				hold := 400 * time.Millisecond
+				if o.end == "backlog" {
+					hold = 30 * time.Millisecond
+				}
 				select {
 				case <-gate:
-				case <-time.After(400 * time.Millisecond):
+				case <-time.After(hold):
 				}
 			}
 			out := "ret"
@@ -398,7 +405,7 @@ func runSession(t *tlog, o sessionOpts, rng *rand.Rand) (stats map[string]int, e
 	}
 	stats["lines"] = len(ls) - 1
 	switch o.end {
-	case "":
+	case "", "backlog":
 		s.Srv.SendStream(stream, cuts)
 		if !s.Sync(20 * time.Second) {
 			return stats, fmt.Errorf("the session did not reach its end (no PONG)")
@@ -461,7 +468,7 @@ func runSession(t *tlog, o sessionOpts, rng *rand.Rand) (stats map[string]int, e
 			stats["nodisc"]++
 		}
 	}
-	if o.end == "" {
+	if o.end == "" || o.end == "backlog" {
 		// the connection stayed up: every line must have reached the foreground handlers
 		gmu.Lock()
 		if maxSeen != len(ls)-1 || gapped {
@@ -501,6 +508,10 @@ func RunPhases(args []string) int {
 		o.end = []string{"", "", "eof", "close"}[i%4]
 		if i%8 == 7 {
 			o.defRecov, o.misbe = true, true
+		}
+		if i%16 == 9 {
+			// a backlog beyond the capacity of the receive queue builds up behind one slow foreground handler
+			o.end, o.misbe, o.lines = "backlog", false, 80+rng.Intn(60)
 		}
 		if i%16 == 5 {
 			o.end, o.misbe, o.tracking = "reconnect", false, true
